@@ -305,6 +305,15 @@ theorem revokedMatch_model (l : List RevokedCert) : revokedMatch l (l.map modelE
 
 /-- **a CRL says exactly what its parameters say**: every clause of `Spec.c08Clauses` holds of
     the encoded `tbsCertList` whenever the CRL is not refused -/
+theorem revokedIffListed_of_entries (l : List RevokedCert) (c : TbsCrl)
+    (h : c.revoked.getD [] = l.map modelEntry) : revokedIffListed l c = true := by
+  unfold revokedIffListed isRevoked
+  rw [h]
+  simp only [Bool.and_eq_true, List.all_eq_true, List.any_eq_true, List.mem_map, beq_iff_eq]
+  refine ⟨fun r hr => ⟨modelEntry r, ⟨r, hr, rfl⟩, rfl⟩, ?_⟩
+  rintro e ⟨r, hr, rfl⟩
+  exact ⟨r, hr, rfl⟩
+
 theorem c08_clauses_hold (i : CrlInputs)
     (hn : crlNextUpdateInvalid i.p = false)
     (hs : crlIssuerNotSigner i.issuer = false)
@@ -330,6 +339,14 @@ theorem c08_clauses_hold (i : CrlInputs)
       have : i.p.revoked = [] := by simpa using hre
       simp [this, revokedMatch]
     | false => simpa using hm
+  have hiff : revokedIffListed i.p.revoked (modelCrl i) = true := by
+    apply revokedIffListed_of_entries
+    cases hre : i.p.revoked.isEmpty with
+    | true =>
+      have : i.p.revoked = [] := by simpa using hre
+      simp [modelCrl, this]
+    | false => simp [modelCrl, hre]
+  simp only [hiff, clause, if_true, List.nil_append]
   simp only [modelCrl, clause, beq_self_eq_true, if_true, List.nil_append, reqTime, enumOf, hrev,
     hku, hlt, decide_true]
   cases hd : i.p.idp with
